@@ -26,6 +26,8 @@ VARIANTS = {
                      "-fsanitize-recover=address,undefined"],
              ["-fsanitize=address,undefined"], ["-O1", "-fsanitize=address,undefined",
                                                 "-fsanitize-recover=address,undefined"]),
+    "asanabort": ("gcc", ["-O1", "-fsanitize=address,undefined", "-fno-omit-frame-pointer", "-fno-sanitize-recover=all"],
+                  ["-fsanitize=address,undefined"], ["-O1", "-fsanitize=address,undefined", "-fno-sanitize-recover=all"]),
     "msan": ("clang", ["-O1", "-fsanitize=memory", "-fno-omit-frame-pointer",
                        "-fsanitize-recover=memory"],
              ["-fsanitize=memory"], ["-O1", "-fsanitize=memory", "-fsanitize-recover=memory"]),
@@ -145,6 +147,10 @@ def build_harness(variant, harness_files, exe, extra_link=(), extra_cflags=(), o
 def hexec(variant="plain"):
     files = ["hexec.c", "state_dump.c"] + (["wrap_libc.c"] if variant == "wrap" else [])
     return build_harness(variant, files, "hexec")
+
+
+def c09_enum(variant="asanabort"):
+    return build_harness(variant, ["c09_enum.c"], "c09_enum")
 
 
 def asmline():
